@@ -100,6 +100,10 @@ pub struct WCase {
     /// C14 only: a history over a tree of directories whose assets are selected by a custom DirLoadable
     #[serde(default)]
     pub dir_ops: Vec<DirOp>,
+    /// C05 only: (rounds, microseconds at schedule point 0, microseconds at schedule point 1) of the
+    /// widened-windows scenario (the reloader's loop is slowed down at its two schedule points)
+    #[serde(default)]
+    pub windows: Option<(u8, u16, u16)>,
 }
 
 #[derive(Clone, Debug, Serialize, Deserialize, PartialEq, Eq)]
@@ -276,7 +280,7 @@ pub fn wcase_strategy(opts: GenOpts, static_prob: f64) -> BoxedStrategy<WCase> {
             let files2 = f.iter().map(|(i, e, c)| (i.clone(), e.clone(), match c { Content::Ok(v) => Content::Ok(v + 5000), o => o.clone() })).collect();
             // OC blocks must not be used in static mode (the second cache does not outlive the case)
             let second = if static_mode { SecondCache::None } else { second };
-            WCase { files: f, nodes, top, static_mode, second, files2, steps, dir_ops: vec![] }
+            WCase { files: f, nodes, top, static_mode, second, files2, steps, dir_ops: vec![], windows: None }
         })
         .boxed()
 }
